@@ -229,6 +229,34 @@ theorem C11_guard_exact_unguarded : quoGuard_CalculateUSDValue = true ∧ quoGua
 theorem C11_quo_guard_index : quoGuardIndex = [
 QUOINDEXLITERAL] := by rfl
 
+/-! ### nil / non-positive price values (nil-dereference kind)
+
+sdkmath.Int is a pointer wrapper: `NewIntFromString` of a non-numeric string yields a nil Int, and any
+arithmetic on it (CalculateUSDValue: `assetAmount.Mul(price)`) dereferences nil — in BeginBlock on the slash
+path, at epoch ends on the voting-power path. The two oracle getters are the only producers of prices;
+`oraclePriceLiterals` lists every `Price{…}` they build with its Value, what it is returned with and its
+dominating guards. Two lemmas about the regenerated guard kernels show that the only literals whose Value
+is a parsed variable are reached with a non-nil, positive value; the table tie pins everything else
+(default-price constructors, and the one `Price{}` that is returned together with a non-RoundNotFound
+error, which every consumer propagates). -/
+
+theorem C11_price_value_guard_specified (v : Int) (vNil : Bool)
+    (h : priceValueGuard_GetSpecifiedAssetsPrice v vNil = true) : vNil = false ∧ 0 < v := by
+  cases vNil <;> simp [priceValueGuard_GetSpecifiedAssetsPrice] at h ⊢
+  omega
+
+theorem C11_price_value_guard_multiple (v : Int) (vNil : Bool)
+    (h : priceValueGuard_GetMultipleAssetsPrices v vNil = true) : vNil = false ∧ 0 < v := by
+  cases vNil <;> simp [priceValueGuard_GetMultipleAssetsPrices] at h ⊢
+  omega
+
+theorem C11_oracle_price_literals : oraclePriceLiterals = [
+PRICELITERALS] := by rfl
+
+/-- who consumes the getters (all treat ErrGetPriceRoundNotFound as "default price" and return any other error) -/
+theorem C11_price_consumers : priceConsumersOnBlockPaths = [
+PRICECONSUMERS] := by rfl
+
 /-! ### the guard lemmas' models are the regenerated Go kernels -/
 
 /-- the divisor `C11_guard_usdValue_divisor` is about is the one the regenerated CalculateUSDValue divides by -/
@@ -268,6 +296,7 @@ theorem C11_appchain_not_wired : appWiredCustomModules.all (fun m => m != "x/app
 end ExoVerif.Blocks
 ''' % (len(rows), len(rows), cnt['.guard'], cnt['.finding'],
        cnt['.finding'] + cnt['.candidate'] + cnt['.assumed'] + cnt['.unreviewed'])
+out = out.replace("PRICELITERALS", ",\n".join("  " + q(x) for x in getlist("oraclePriceLiterals"))).replace("PRICECONSUMERS", ",\n".join("  " + q(x) for x in getlist("priceConsumersOnBlockPaths")))
 out = out.replace("QUOINDEXLITERAL", ",\n".join("  " + q(x) for x in quo_index))
 open(os.path.join(V, "lean/ExoVerif/Props/C11Tie.lean"), "w").write(out)
 print(dict(cnt), "findings:", len(findings))
